@@ -27,9 +27,14 @@ def deserialize_entries(facts):
                    if (r.get("trait_item") or "").endswith("Deserialize::deserialize")})
 
 
+def root_of(name):
+    """The function a closure is nested in (closure numbering is not stable under harmless edits)."""
+    return re.sub(r"(::\{closure#\d+\})+$", "", name)
+
+
 def family(name):
-    """Macro-generated operator variants (owned/borrowed operands) share one family key."""
-    n = name.replace("&'a ", "").replace("&", "")
+    """Macro-generated operator variants (owned/borrowed operands) share one family key; closures belong to the function they are nested in."""
+    n = root_of(name).replace("&'a ", "").replace("&", "")
     n = re.sub(r"impl (std::ops::\w+) for ([\w:]+)>", r"impl \1<\2> for \2>", n)
     return n
 
